@@ -43,8 +43,28 @@ def entry_point_job(job):
         except Exception as ex:                          # pylint: disable=broad-except
             out.append({"key": "k", "dig": "raised:" + type(ex).__name__, "completed": False, "form": form,
                         "message": str(ex)[:160]})
-    return {"pid": "C18", "clause": "optimiser_output_identical_across_lambda_forms", "events": out,
-            "N": N, "W": W, "lam": lam}
+    # a second value through the SAME matrix object, refilled in place, and through a fresh matrix at (possibly) the same
+    # address: a memo keyed on the identity of the array would serve the first value's sums
+    lam2 = lam / 2.0 if lam else 0.25
+    out2 = []
+    try:
+        out2.append({"key": "k2", "dig": proj.dig(admm.admm_optimize_theta(S, float(lam2), W, N).theta), "completed": True,
+                     "form": "float"})
+        buf = np.zeros((nw, nw)) + lam
+        admm.admm_optimize_theta(S, buf, W, N)
+        buf[:] = lam2
+        out2.append({"key": "k2", "dig": proj.dig(admm.admm_optimize_theta(S, buf, W, N).theta), "completed": True,
+                     "form": "matrix_const_refilled_in_place"})
+        del buf
+        out2.append({"key": "k2", "dig": proj.dig(admm.admm_optimize_theta(S, np.zeros((nw, nw)) + lam2, W, N).theta),
+                     "completed": True, "form": "matrix_const_fresh_after_free"})
+    except Exception as ex:                              # pylint: disable=broad-except
+        out2.append({"key": "k2", "dig": "raised:" + type(ex).__name__, "completed": False, "form": "matrix_history",
+                     "message": str(ex)[:160]})
+    return [{"pid": "C18", "clause": "optimiser_output_identical_across_lambda_forms", "events": out,
+             "N": N, "W": W, "lam": lam},
+            {"pid": "C18", "clause": "optimiser_output_identical_across_lambda_forms_after_other_values", "events": out2,
+             "N": N, "W": W, "lam": lam2}]
 
 
 def floor_forms_job(job):
@@ -136,7 +156,7 @@ def build(tier):
     trs = runs.run_many(cfgs)
     ep_jobs = [(N, W, lam, rng.randrange(1 << 30)) for (N, W) in [(1, 1), (2, 2), (3, 2), (2, 4)]
                for lam in (1.0, 0.5, 0.125, 0.0)][: (8 if tier == "quick" else 16)]
-    ep = common.pmap(entry_point_job, ep_jobs)
+    ep = [g for pair in common.pmap(entry_point_job, ep_jobs) for g in pair]
     fl_jobs = [(rng.choice([2, 3, 5, 8]), e2, rng.randrange(1 << 30))
                for e2 in (-20, -14, -13, -12, -10, -4, -1, 0, 1, 2, 4, 6, 7, 8, 12)
                for _ in range(1 if tier == "quick" else 6)]
